@@ -138,6 +138,7 @@ func main() {
 			if cc.InputHex == "" {
 				cc.Case = pipe.NewCase(cc.Format, cc.Schema, []byte(cc.InputText))
 			}
+			vh.Current(o, cc.Case)
 			pipe.Watch("corpus " + cc.Name)
 			t := runOnce(cc.Case)
 			sum.Hist("corpus:" + cc.Name)
@@ -179,7 +180,16 @@ func main() {
 		if f.AncestorField() != "" && r.Chance(0.4) {
 			extra = append(extra, f.AncestorField())
 		}
-		schema, feats := f.SchemaWith(r, nil, extra, env)
+		var must []string
+		switch r.Pick(6) {
+		case 0:
+			must = []string{"js-throw"}
+		case 1, 2:
+			must = []string{"js-global-probe"}
+		case 3:
+			must = []string{"typed-externals"}
+		}
+		schema, feats := f.SchemaWith(r, must, extra, env)
 		var in []byte
 		kind := "records"
 		if r.Chance(0.7) || (f.Name == "json" && env.Header) {
@@ -194,9 +204,10 @@ func main() {
 			kind = "fixture-" + kind
 		}
 		cs := pipe.NewCase(f.Name, schema, in)
-		if feats["external-const"] {
-			cs.Ext = map[string]string{"ext1": "E1"}
-		}
+		cs.Ext = pipe.GenExt(r.Pick)
+		cs2 := cs // the same schema and input under different externals
+		cs2.Ext = pipe.GenExt(r.Pick)
+		vh.Current(o, cs)
 		pipe.Watch(f.Name)
 		comp, err := pipe.Compile(schema)
 		if err != nil {
@@ -218,7 +229,23 @@ func main() {
 			}
 		}
 		t4 := runOnce(cs)
+		// ONE Schema object, a further transform with DIFFERENT externals: it must see its own
+		tB := comp.RunReal(in, cs2.Ext)
+		tB2 := runOnce(cs2)
 		pipe.Unwatch()
+		if !tB.Equal(tB2) {
+			sum.Fail("a Schema used for a second transform with different external properties gives a different transcript than a fresh Schema with those externals (first difference at result "+fmt.Sprint(pipe.FirstDiff(tB, tB2))+")",
+				cs2, map[string]interface{}{"same_schema_object": tB, "fresh_schema": tB2, "externals_of_the_first_transform": cs.Ext})
+		}
+		for _, x := range []struct {
+			t   pipe.Transcript
+			ext map[string]string
+		}{{t1, cs.Ext}, {t4, cs.Ext}, {tB, cs2.Ext}} {
+			if bad := pipe.CheckOutputs(feats, x.ext, x.t); len(bad) > 0 {
+				sum.Fail("output relation violated: "+bad[0], cs, map[string]interface{}{"violations": bad, "transcript": x.t, "externals": x.ext})
+				break
+			}
+		}
 
 		canon, _ := json.Marshal(cs)
 		sum.Count(string(canon), k >= 1)
@@ -269,10 +296,13 @@ func main() {
 			history = history[1:]
 		}
 		pend = append(pend, pending{cs, t1})
+		if feats["typed-externals"] || feats["external-const"] {
+			pend = append(pend, pending{cs2, tB})
+		}
 
 		// ---- checksum sensitivity / equality on a record-structured input, fixture schema ----
 		if r.Chance(0.5) {
-			checksumCase(r, sum, cw, fmts[r.Pick(len(fmts))])
+			checksumCase(o, r, sum, cw, fmts[r.Pick(len(fmts))])
 		}
 	}
 
@@ -297,6 +327,7 @@ func main() {
 			path := filepath.Join(o.Out, fmt.Sprintf("child_%03d.json", p))
 			jb, _ := json.Marshal(cases)
 			_ = os.WriteFile(path, jb, 0o644)
+			vh.Current(o, map[string]interface{}{"fresh_process_batch": cases})
 			cmd := exec.Command(self, "-child", path)
 			cmd.Env = os.Environ()
 			outb, err := cmd.CombinedOutput()
@@ -334,7 +365,7 @@ func main() {
 // one record is replaced by a different one (inside the F12 guard for xml: element text of a
 // child element, or an attribute of the record element, which has element children); a copy of
 // one record is appended (equal raw records).
-func checksumCase(r *vh.Rng, sum *vh.Summary, cw *vh.CaseWriter, f pipe.Fmt) {
+func checksumCase(o *vh.Opts, r *vh.Rng, sum *vh.Summary, cw *vh.CaseWriter, f pipe.Fmt) {
 	env := pipe.Env{Header: r.Chance(0.5) && f.Name != "json", Trailer: r.Chance(0.5)}
 	n := r.Between(2, 5)
 	recs := make([]pipe.Rec, n)
@@ -376,6 +407,7 @@ func checksumCase(r *vh.Rng, sum *vh.Summary, cw *vh.CaseWriter, f pipe.Fmt) {
 		sum.Fail("fixture schema rejected", cs, err.Error())
 		return
 	}
+	vh.Current(o, cs)
 	pipe.Watch("checksum " + f.Name)
 	t1 := comp.RunReal(in1, nil)
 	t2 := comp.RunReal(in2, nil)
